@@ -131,6 +131,12 @@ func CalcExitPool(
 			if asset.Token.Amount.IsNegative() {
 				return sdk.Coins{}, sdkmath.LegacyZeroDec(), fmt.Errorf("out amount exceeds liquidity balance")
 			}
+			// an exit must not take the whole reserve of an asset either (same rule as the all-asset branch
+			// below); a reserve of exactly zero would also be dropped from the balance update and leave the
+			// pool's book value of that asset stale
+			if asset.Token.Amount.IsZero() {
+				return sdk.Coins{}, sdkmath.LegacyZeroDec(), errors.New("too many shares out")
+			}
 		}
 
 		weightDistance := pool.WeightDistanceFromTarget(ctx, oracleKeeper, newAssetPools)
